@@ -263,6 +263,7 @@ class RefFile:
         self.chunks = []       # per entry: present, digest_ok, decodes, content (bytes or None)
         self.data_ok = False
         self.valid = False
+        self.valid_strict = False
         self.content = None
         if self.h.ok:
             self._body()
